@@ -141,7 +141,7 @@ class Tree:
         os.utime(root, (FIXED_MTIME, FIXED_MTIME))
 
     def to_zip(self, explicit_dirs: bool = True, date_time=(2020, 9, 13, 12, 26, 40),
-               omit_dirs: typing.Sequence[bytes] = ()) -> bytes:
+               omit_dirs: typing.Sequence[bytes] = (), date_for=None) -> bytes:
         """Archive of this tree.  Symlinks become symlink members.  Names that are valid
         UTF-8 are stored as such (zipfile sets the UTF-8 flag for non-ASCII ones); other
         byte strings are stored raw without the flag, the way zip(1) does on POSIX (done by
@@ -162,8 +162,10 @@ class Tree:
                 patches.append((tok, raw))
                 return tok.decode("ascii")
 
+        default_date = date_time
         with zipfile.ZipFile(bio, "w", zipfile.ZIP_DEFLATED) as z:
             for p, n in sorted(self.nodes.items()):
+                date_time = date_for(p) if date_for else default_date
                 if n["kind"] == "dir":
                     if explicit_dirs and p not in omit_dirs:
                         zi = zipfile.ZipInfo(zname(p, b"/"), date_time)
